@@ -3,8 +3,14 @@
 package a
 
 import (
+	"context"
 	crand "crypto/rand"
+	"fmt"
 	"math/rand"
+	"os"
+	"reflect"
+	"runtime"
+	"sort"
 	"sync"
 	"time"
 
@@ -111,3 +117,63 @@ var initialised = func() int {
 	}
 	return 0
 }()
+
+type rows struct{}
+
+func (rows) Err() error { return nil }
+
+var logger = log.NewLogger("synth")
+
+// effects: what the body of a map iteration does (rows of `loops`)
+func (h *holder) effects(ctx context.Context, unknown Opaque, out []string, db Store) (int, error) {
+	total := 0
+	for k, v := range h.m { // exits return; writes out, total, h.box.Items[_]; calls append, db.Put (as .Put), fmt.Sprint
+		if v < 0 {
+			return 0, fmt.Errorf("negative")
+		}
+		tmp := fmt.Sprint(k) // tmp is loop-local: not a write
+		out = append(out, tmp)
+		total += v
+		h.box.Items[k] = v
+		db.Put(k, v)
+		logger.Debug().Str("k", k).Msg("visited") // logger chain: left out
+	}
+	for k := range h.m { // exits break; writes delete(h.m)
+		if k == "" {
+			break
+		}
+		switch k {
+		case "x":
+			break // leaves the switch, not the loop
+		}
+		delete(h.m, k)
+	}
+outer:
+	for range h.s {
+		for k := range h.m { // exits continue outer
+			if k == "y" {
+				continue outer
+			}
+			func() {
+				return // inside a function literal: not an exit
+			}()
+		}
+	}
+	h.sm.Range(func(k, v interface{}) bool { // syncmap: exits return false; writes total
+		total++
+		return false
+	})
+	sort.Slice(out, func(i, j int) bool { return out[i] < out[j] }) // sort
+	sort.Strings(out)                                             // sort
+	_ = sort.SearchStrings(out, "a")                              // not listed
+	_ = ctx.Err()                                                 // ctxpoll
+	_, _ = ctx.Deadline()                                         // ctxpoll
+	_ = unknown.Err()                                             // ctxpoll? (type not resolvable)
+	var r rows
+	_ = r.Err()                   // a type of this module that is not a context: not listed
+	_ = os.Getenv("X")            // env
+	_ = runtime.NumCPU()          // env
+	_ = reflect.ValueOf(h.m).MapKeys() // mapkeys
+	_ = fmt.Sprintf("%p", h)      // ptrfmt
+	return total, nil
+}
